@@ -30,7 +30,9 @@ func VerifC16DumpRW(rw *RollingWindow[float64, *Bucket[float64]]) string {
 }
 
 // VerifC16RWInterval returns the configured interval.
-func VerifC16RWInterval(rw *RollingWindow[float64, *Bucket[float64]]) time.Duration { return rw.interval }
+func VerifC16RWInterval(rw *RollingWindow[float64, *Bucket[float64]]) time.Duration {
+	return rw.interval
+}
 
 // VerifC16DumpSafeMap renders both generations (sorted) and the deletion counters.
 func VerifC16DumpSafeMap(m *SafeMap) string {
